@@ -1,6 +1,6 @@
 #!/bin/sh
-# usage: tools/confirm_batch.sh <listfile>   lines: <srcdir>|<N>|<pid>|<needs>
-while IFS='|' read -r src n pid needs; do
+# usage: tools/confirm_batch.sh <listfile>   lines: <srcdir>|<N>|<pid>|<needs>[|<number to file under>]
+while IFS='|' read -r src n pid needs num; do
   [ -z "$src" ] && continue
-  NPROC=${NPROC:-6} /verif/tools/confirm_seed.sh "$src" "$n" "$pid" "$needs"
+  NPROC=${NPROC:-6} /verif/tools/confirm_seed.sh "$src" "$n" "$pid" "$needs" ${num:+"$num"}
 done < "$1"
